@@ -16,6 +16,8 @@ from fractions import Fraction
 
 import numpy as np
 
+from pwlib.share import shcopy
+
 from pwlib import canon, gens
 from pwlib.canon import dtype_tag, flat
 from pwlib.engine import Case
@@ -599,9 +601,9 @@ def make_fit(spec):
         cs = max(float(np.max(np.abs(C))), 1e-300)
         # cancellation in (x - mean): absolute error of an entry is ~ eps * scale * spread
         spread = max(float(np.max(np.abs(P - P.mean(axis=0)))), 1e-300)
-        cases.append(Case(spec, Line("c13.cov").vecs(P), lambda: flat(np.cov(P.copy().T)), mode="both", klass="cov/" + spec["kind"],
+        cases.append(Case(spec, Line("c13.cov").vecs(P), lambda: flat(np.cov(shcopy(P).T)), mode="both", klass="cov/" + spec["kind"],
                           scale=max(cs, scale * spread * 1e-3)))
-        cases.append(Case(spec, Line("c13.centroid").vecs(P), lambda: flat(P.copy().mean(axis=0)), mode="both",
+        cases.append(Case(spec, Line("c13.centroid").vecs(P), lambda: flat(shcopy(P).mean(axis=0)), mode="both",
                           klass="centroid/" + spec["kind"], scale=scale))
     return cases
 
@@ -707,7 +709,7 @@ def make_fn(spec):
             tris.append(float_triangle(rng))
     T = A(tris).reshape(-1, 3, 3)
     scale = max(gens.maxabs(T), 1e-300)
-    arg = (lambda: T[0].copy()) if single else (lambda: T.copy())
+    arg = (lambda: shcopy(T[0])) if single else (lambda: shcopy(T))
     sfx = "%s/%s" % (spec["stream"], "single" if single else ("k0" if k == 0 else "stack"))
     trivial = k == 0
     # raw cross products scale like edge²
@@ -737,12 +739,12 @@ def make_fn(spec):
         E = A([gens.fvec(rng, gens.scale_of(rng, -3, 3)) + [rng.uniform(-1, 1) * gens.scale_of(rng)] for _ in range(k)]).reshape(-1, 4)
     if single:
         def nao1():
-            nn, oo = normal_and_offset_from_plane_equations(E[0].copy())
+            nn, oo = normal_and_offset_from_plane_equations(shcopy(E[0]))
             return flat(nn) + flat(oo)
         cases.append(Case(spec, Line("c13.fn.nao1").vec(E[0]), nao1, mode="both", klass="fn.nao/" + sfx, rtol=0.0))
     else:
         def nao():
-            nn, oo = normal_and_offset_from_plane_equations(E.copy())
+            nn, oo = normal_and_offset_from_plane_equations(shcopy(E))
             return [k] + flat(nn) + [k] + flat(oo)
         cases.append(Case(spec, Line("c13.fn.nao").i(k).vec(E), nao, mode="both", klass="fn.nao/" + sfx, rtol=0.0, trivial=trivial))
 
@@ -755,11 +757,11 @@ def make_fn(spec):
         if N.dtype != np.float64 or EQ.dtype != np.float64:
             out.append(("functions/real-dtype", "dtypes %s %s" % (N.dtype, EQ.dtype)))
         if len(EQ):
-            nn, oo = normal_and_offset_from_plane_equations(EQ.copy() if not single else EQ[0].copy())
+            nn, oo = normal_and_offset_from_plane_equations(shcopy(EQ) if not single else shcopy(EQ[0]))
             nn, oo = np.asarray(nn).reshape(-1, 3), np.atleast_1d(oo)
         for i, t in enumerate(T if not single else T[:1]):
             try:
-                pl = Plane.from_points(t[0].copy(), t[1].copy(), t[2].copy())
+                pl = Plane.from_points(shcopy(t[0]), shcopy(t[1]), shcopy(t[2]))
             except ValueError:
                 pl = None
             c = gens.fcross(gens.fsub(t[1], t[0]), gens.fsub(t[2], t[0]))
@@ -786,8 +788,8 @@ def make_fn(spec):
                 out.append(("functions/raw-cross", "row %d: normalize=False gives %r, (p2-p1)x(p3-p1) = %r" % (i, NR[i].tolist(), [float(x) for x in c])))
             # stacked row = single call
             if not single:
-                n1 = plane_normal_from_points(t.copy())
-                e1 = plane_equation_from_points(t.copy())
+                n1 = plane_normal_from_points(shcopy(t))
+                e1 = plane_equation_from_points(shcopy(t))
                 if n1.shape != (3,) or e1.shape != (4,) or any(abs(F(n1[j]) - F(N[i][j])) > tol for j in range(3)) \
                         or any(abs(F(e1[j]) - F(EQ[i][j])) > (tol if j < 3 else stol) for j in range(4)):
                     out.append(("functions/stack-is-map", "row %d of the stacked result differs from the single call" % i))
